@@ -840,7 +840,7 @@ def k16_assemble(ctx, pid: str):
                         "after the inputs' citations were dereferenced, %s leaves without re-referencing them: phases %r"
                         % ("a failing assembly" if o.kind == "raise" else "the assembly", names)))
         if o.kind == "return":
-            ann = [i for i, x in enumerate(ph) if x[0] == "annotate"]
+            ann = [i for i, x in enumerate(ph) if x[0] == "annotate" and x[1] and isinstance(x[1][0], ARec) and repr(x[1][0].ident) == "product"]
             ok = bool(walk) and bool(ann) and bool(refs_prod) and walk[0] < refs_prod[0] and isinstance(o.value, ARec) and repr(o.value.ident) == "product"
             out.append(("K16.product", name, ok, "the product must be generated, annotated, re-referenced and returned: phases %r, value %r" % (names, o.value)))
             loops = [e for e in o.path.effects if e[0] == "loop"]
